@@ -74,20 +74,25 @@ def visitKids (c : Cfg) (i : Info) (kids : Forest) : Mode :=
   | .bzr => if i.helper then .dead else if i.kind == .dir && !hasCtl kids then .walk else .dead
   | .git => if i.kind == .dir && !hasCtl kids then .walk else .dead
 
-/-- a named directory is put on the work list by phase 1.  bzr: not if it lies
-in an already scanned / dead region (`_gather_dirs_to_add`), and not if it is a
-*versioned* directory holding a `.bzr` directory: `_get_ie` then reports the
-kind `tree-reference` (`_directory_may_be_tree_reference`) and the path is not
-scheduled (reached from its parent's scan the raw inventory kind `directory`
-is used instead). -/
-def startsWalk (c : Cfg) (p : Path) (i : Info) (kids : Forest) (m : Mode) : Bool :=
-  c.recurse && c.names.contains p && i.kind == .dir &&
-    (c.fmt == .git || (m == .idle && !(i.versioned && kids.hasDir ".bzr")))
+/-- a named directory is put on the work list by phase 1 (`user_dirs`; the test
+uses the kind on disk).  bzr: not if it lies in an already scanned / dead
+region (`_gather_dirs_to_add`). -/
+def startsWalk (c : Cfg) (p : Path) (i : Info) (m : Mode) : Bool :=
+  c.recurse && c.names.contains p && i.kind == .dir && (c.fmt == .git || m == .idle)
+
+/-- bzr: a scheduled named directory that was already *versioned* and holds a
+`.bzr` directory is reported by `_get_ie` with kind `tree-reference`
+(`_directory_may_be_tree_reference`): its visit does nothing and, being
+scheduled, it shadows named directories below it.  (Reached from its parent's
+scan the raw inventory kind `directory` is used instead.) -/
+def namedTreeRef (c : Cfg) (i : Info) (kids : Forest) : Bool :=
+  c.fmt == .bzr && i.versioned && kids.hasDir ".bzr"
 
 /-- one entry: (versioned flag afterwards, mode of its content) -/
 def step (c : Cfg) (p : Path) (m : Mode) (i : Info) (kids : Forest) : Bool × Mode :=
   let v1 := i.versioned || onPath c p i
-  if startsWalk c p i kids m then (visitFlag c i kids v1, visitKids c i kids)
+  if startsWalk c p i m then
+    (if namedTreeRef c i kids then (v1, .dead) else (visitFlag c i kids v1, visitKids c i kids))
   else match m with
     | .walk => if listed c p i v1 then (visitFlag c i kids v1, visitKids c i kids) else (v1, .dead)
     | .idle => (v1, .idle)
